@@ -106,3 +106,14 @@ def run(ctx: Context) -> None:
         need = {"h11.DONE==self._h11_state.our_state", "h11.DONE==self._h11_state.their_state"}
         rep.ob("C17.R4", fkey(tree, rc, "idle-needs-done-done"), bool(idle) and all(need <= guard_atoms(guards_of(n)) for n in idle), where(rc), "the connection idles only when both h11 sides are DONE (never after a protocol switch)")
     rep.assume("after a 101 / CONNECT-2xx h11's states are SWITCHED_PROTOCOL, never DONE (h11 behaviour)")
+
+
+_core_run = run
+
+
+def run(ctx: Context) -> None:  # noqa: F811
+    _core_run(ctx)
+    from . import support
+
+    ctx.rep.rule('C17.R5', 'reading a response never closes it (the handed-over stream stays live until the caller closes the response)')
+    support.read_does_not_close(ctx, 'C17.R5')
